@@ -27,10 +27,13 @@ class Failpoint:
             mon.free_tool_id(self.TOOL)
             mon.use_tool_id(self.TOOL, "vmon-failpoint")
         prefix = os.path.join(core.REPO, "pyrepseq") + os.sep
+        owner = os.getpid()
 
         def on_line(code, line):
             if not code.co_filename.startswith(prefix):
                 return mon.DISABLE
+            if os.getpid() != owner:
+                return None            # a forked pool worker inherited the hook: faults are injected in the calling process only
             if self.fired_at is not None:
                 return None
             self.count += 1
